@@ -94,6 +94,23 @@ class Asn1Anchors:
                     self.reader_helper[name] = h
         if len(self.reader_helper) < 6:
             raise AnalysisError("fewer than 6 ASN1Reader.read_* methods delegate to a module-level helper")
+        # peek_header may reach the header routine through a thin wrapper of its own (a cached variant, a slicing shim): the header
+        # routine is the function on that chain which the read helpers reach as well
+        common: Optional[Set[str]] = None
+        for name, h in self.reader_helper.items():
+            r_ = {f.qualname for f in reachable(model, h)}
+            common = r_ if common is None else common & r_
+        chain = [self.header]
+        while chain[-1].qualname not in (common or set()) and len(chain) < 4:
+            nxt = module_callees(model, chain[-1])
+            if len(nxt) != 1 or nxt[0] in chain:
+                break
+            chain.append(nxt[0])
+        if chain[-1].qualname in (common or set()):
+            self.peek_chain = chain[:-1]          # what peek_header goes through before the header routine
+            self.header = chain[-1]
+        else:
+            self.peek_chain = []
         # the validating helper: reached from every read helper and calls the header routine
         cands: Optional[Set[str]] = None
         for name, h in self.reader_helper.items():
